@@ -568,6 +568,22 @@ class Explorer:
         a branch must be determined by the path condition)."""
         return Explorer._Post(self, pc)
 
+    def choose(self, v, values):
+        """Blind fork of an Int-sorted value over a given finite list (no feasibility
+        queries; an infeasible choice only yields a path whose condition is unsatisfiable)."""
+        t = v.t
+        if self._pos < len(self._prefix):
+            d = self._prefix[self._pos]
+            assert isinstance(d, tuple) and d[0] == "int", d
+        else:
+            for other in values[1:]:
+                self._stack.append(self._decisions + [("int", other)])
+            d = ("int", values[0])
+        self._pos += 1
+        self._decisions.append(d)
+        self._pc.append(t == d[1])
+        return d[1]
+
     def assume(self, cond):
         """Add an assumption on the current path (abort path if infeasible)."""
         t = cond.t if isinstance(cond, SymBool) else cond
@@ -628,13 +644,43 @@ def _free_vars(f):
 # ----------------------------------------------------------------------------------
 # numpy shim
 # ----------------------------------------------------------------------------------
+SYMTYPES = (Sym, SymAngle, SymBool)
+
+
+def register_symtype(t):
+    global SYMTYPES
+    if t not in SYMTYPES:
+        SYMTYPES = SYMTYPES + (t,)
+
+
+def to_int(v):
+    """C/numpy ``astype(int)`` of one scalar."""
+    if isinstance(v, Sym):
+        return v if v.is_int else Sym(z3.simplify(v.trunc().t))
+    if hasattr(v, "to_int"):
+        return v.to_int()
+    return int(v)
+
+
+class OArr(_np.ndarray):
+    """Object array whose astype(int) keeps symbolic content symbolic."""
+
+    def astype(self, dtype, *a, **k):
+        if has_sym(self) and _np.dtype(dtype).kind in "iu":
+            out = _np.empty(self.shape, dtype=object)
+            for idx in _np.ndindex(self.shape):
+                out[idx] = to_int(self[idx])
+            return out.view(OArr)
+        return _np.asarray(self).astype(dtype, *a, **k)
+
+
 def has_sym(x):
-    if isinstance(x, (Sym, SymAngle, SymBool)):
+    if isinstance(x, SYMTYPES):
         return True
     if isinstance(x, _np.ndarray):
         if x.dtype != object:
             return False
-        return any(isinstance(v, (Sym, SymAngle, SymBool)) for v in x.flat)
+        return any(isinstance(v, SYMTYPES) for v in x.flat)
     if isinstance(x, (list, tuple)):
         return any(has_sym(v) for v in x)
     return False
@@ -722,9 +768,9 @@ def _map(fn, x):
         out = _np.empty(x.shape, dtype=object)
         for idx in _np.ndindex(x.shape):
             out[idx] = fn(x[idx])
-        return out
+        return out.view(OArr)
     if isinstance(x, (list, tuple)):
-        return _np.array([_map(fn, v) for v in x], dtype=object)
+        return _np.array([_map(fn, v) for v in x], dtype=object).view(OArr)
     return fn(x)
 
 
@@ -882,7 +928,7 @@ class SymNumpy:
             return _np.round(x, decimals)
         if decimals:
             raise SymUnsupported("round decimals")
-        return _map(lambda v: v.rint() if isinstance(v, Sym) else round(v), x)
+        return _map(lambda v: v.rint() if hasattr(v, "rint") else round(v), x)
 
     def fmod(self, x, y):
         if not has_sym(x):
@@ -940,7 +986,7 @@ class SymNumpy:
     def array(self, x, *a, **k):
         if has_sym(x):
             k.pop("dtype", None)
-            return _np.array(x, dtype=object)
+            return _np.array(x, dtype=object).view(OArr)
         return _np.array(x, *a, **k)
 
     def asarray(self, x, *a, **k):
